@@ -474,7 +474,10 @@ func c01Step(t *rapid.T, p c01Pools) []kit.Argv {
 	case 20:
 		// replies that legitimately differ between runs (clock, connection identity, random choice):
 		// only checked for "exactly one well-formed reply"
-		switch c01U(t, "volatile", 19) {
+		switch c01U(t, "volatile", 27) {
+		case 19, 20, 21, 22, 23, 24, 25, 26:
+			// text that the server embeds in a larger reply text (CLIENT LIST / INFO are verbatim strings under RESP3)
+			return []kit.Argv{kit.A(cn("CLIENT"), cn("SETNAME"), c01Pick(t, "cname", "rate=100%", "%d%s%v", "a%", "%%", "100%!", "%x%x%x%x", "{}", "name\\x", "%-5d|")), kit.A(cn("CLIENT"), cn(c01Pick(t, "after", "LIST", "LIST", "LIST", "INFO", "GETNAME")))}
 		case 0:
 			return []kit.Argv{kit.A(cn("CLIENT"), cn("ID"))}
 		case 1:
